@@ -41,9 +41,11 @@ IMPORTS = ("From NpTdms Require Import Model.IoPlan.\nOpen Scope Z_scope.\n")
 CASE_TYPE = "file * list op * list (option out) * list (option Z)"
 
 # ---------------------------------------------------------------------------
-# A small independent TDMS encoder (little-endian, TDMS 2.0 / version 4713)
+# A small independent TDMS encoder (TDMS 2.0 / version 4713; byte order of the segment being
+# encoded in _E, little-endian unless gen_file chooses otherwise)
 
-TOC_META, TOC_NEWOBJ, TOC_RAW, TOC_IL = 1 << 1, 1 << 2, 1 << 3, 1 << 5
+TOC_META, TOC_NEWOBJ, TOC_RAW, TOC_IL, TOC_BE = 1 << 1, 1 << 2, 1 << 3, 1 << 5, 1 << 6
+_E = "<"
 T_I32, T_F64, T_STR, T_TS = 3, 10, 0x20, 0x44
 TYPE_NAMES = {T_I32: "int32", T_F64: "float64", T_STR: "string", T_TS: "timestamp"}
 SIZES = {T_I32: 4, T_F64: 8, T_TS: 16}
@@ -51,7 +53,7 @@ SIZES = {T_I32: 4, T_F64: 8, T_TS: 16}
 
 def _s(x):
     b = x.encode("utf-8")
-    return struct.pack("<L", len(b)) + b
+    return struct.pack(_E + "L", len(b)) + b
 
 
 def enc_obj(path, idx):
@@ -59,21 +61,23 @@ def enc_obj(path, idx):
     (dtype, n) or (T_STR, n, total_bytes) -> full raw data index."""
     out = _s(path)
     if idx is None:
-        out += struct.pack("<L", 0xFFFFFFFF)
+        out += struct.pack(_E + "L", 0xFFFFFFFF)
     elif idx == "prev":
-        out += struct.pack("<L", 0)
+        out += struct.pack(_E + "L", 0)
     elif idx[0] == T_STR:
-        out += struct.pack("<LLLQQ", 28, T_STR, 1, idx[1], idx[2])
+        out += struct.pack(_E + "LLLQQ", 28, T_STR, 1, idx[1], idx[2])
     else:
-        out += struct.pack("<LLLQ", 20, idx[0], 1, idx[1])
-    out += struct.pack("<L", 0)  # no properties
+        out += struct.pack(_E + "LLLQ", 20, idx[0], 1, idx[1])
+    out += struct.pack(_E + "L", 0)  # no properties
     return out
 
 
 def enc_segment(toc, objs, data):
     """objs: list of encoded objects or None (segment without metadata)."""
-    meta = b"" if objs is None else struct.pack("<L", len(objs)) + b"".join(objs)
-    return (b"TDSm" + struct.pack("<l", toc) + struct.pack("<lQQ", 4713, len(meta) + len(data), len(meta))
+    meta = b"" if objs is None else struct.pack(_E + "L", len(objs)) + b"".join(objs)
+    if _E == ">":
+        toc |= TOC_BE
+    return (b"TDSm" + struct.pack("<l", toc) + struct.pack(_E + "lQQ", 4713, len(meta) + len(data), len(meta))
             + meta + data), 28 + len(meta)
 
 
@@ -103,10 +107,12 @@ def str_value(j, nbytes):
 def enc_values(ty, c, labels, lens=None):
     """bytes of the values with the given labels for channel c of type ty"""
     if ty == T_I32:
-        return b"".join(struct.pack("<i", (-1) ** j * (1000 * (c + 1) + j)) for j in labels)
+        return b"".join(struct.pack(_E + "i", (-1) ** j * (1000 * (c + 1) + j)) for j in labels)
     if ty == T_F64:
-        return b"".join(struct.pack("<d", 100.0 * c + j + 0.25) for j in labels)
+        return b"".join(struct.pack(_E + "d", 100.0 * c + j + 0.25) for j in labels)
     if ty == T_TS:
+        if _E == ">":
+            return b"".join(struct.pack(">qQ", 3000000000 + 11 * j + c, (j % 4) << 62) for j in labels)
         return b"".join(struct.pack("<Qq", (j % 4) << 62, 3000000000 + 11 * j + c) for j in labels)
     if ty == T_STR:
         vals = [str_value(j, n).encode("utf-8") for j, n in zip(labels, lens)]
@@ -114,7 +120,7 @@ def enc_values(ty, c, labels, lens=None):
         for v in vals:
             tot += len(v)
             offs.append(tot)
-        return b"".join(struct.pack("<L", o) for o in offs) + b"".join(vals)
+        return b"".join(struct.pack(_E + "L", o) for o in offs) + b"".join(vals)
     raise AssertionError(ty)
 
 
@@ -132,7 +138,10 @@ def gen_file(rng):
     blob = b""
     segs = []                         # abstract segments
     shape = []
+    mixed = rng.random() < 0.3        # files mixing byte orders between segments (also metadata-less ones)
+    global _E
     for si in range(nseg):
+        _E = ">" if mixed and rng.random() < 0.5 else "<"
         kinds = ["new"] * 5
         if prev_order is not None:
             kinds += ["inc"] * 3 + ["nodata"]
@@ -259,6 +268,7 @@ def gen_file(rng):
         shape.append("%s%s%d" % (kind, "-il" if il and raw else "", nchunks))
         blob += seg_bytes
         prev_order, prev_il = order, il
+    _E = "<"
     chans = [c for c in range(nchan) if counts[c] > 0]
     return {"bytes": blob, "types": types, "chans": chans, "segs": segs, "lengths": counts,
             "raw_ts": rng.random() < 0.3, "shape": shape}
@@ -906,7 +916,7 @@ def main():
         "window reads use the specification 'values of the window' in the model; windows spanning a segment in "
         "which the channel is absent are compared against the fresh file only while defect D3 is unfixed",
         "files: 1-4 segments, 2-3 channels of int32/float64/string/timestamp, 1-4 chunks, contiguous and "
-        "interleaved, incremental metadata, segments without metadata or without raw data; little-endian; one file in "
+        "interleaved, incremental metadata, segments without metadata or without raw data; 3 files in 10 mix big- and little-endian segments; one file in "
         "50 has 104-124 segments with two channels whose per-segment counts agree for the first 101+ segments"]
     # fixed first case: the D4 witness
     Fw, ops_w = d4_witness()
